@@ -59,6 +59,28 @@ MTick(m, fund) ==
                           last |-> r.last, mid |-> r.mid, fund |-> fund,
                           eVol |-> 0, eTot |-> 0, nB |-> 0, nS |-> 0]]
 
+\* Market._set_time (market.py:544-597): the clock JUMPS to `to` > m.clock >= 0.  The steps in between are never recorded
+\* (their price series hold no value, their counters are zero).  What the new time shows is NOT what the current row
+\* carried: each price series takes the last value it ever held (if the sum of the values it held is positive - the code
+\* tests `sum(...) > 0`), so a mid price that had become unknown comes back; the market price of a running market follows
+\* the trade / the quotes only when the step before `to` holds them (i.e. only for a jump of one step).
+SkipRow == [mkt |-> NoPx, last |-> NoPx, mid |-> NoPx, fund |-> NoPx, eVol |-> 0, eTot |-> 0, nB |-> 0, nS |-> 0]
+KnownVals(seq) == SelectSeq(seq, LAMBDA x : x > NoPx)      \* (the sentinels NoPx and BadPx lie below every price)
+CarriedVal(seq) == LET k == KnownVals(seq) IN
+                   IF Len(k) > 0 /\ FoldLeft(LAMBDA a, b : a + b, 0, k) > 0 THEN k[Len(k)] ELSE NoPx
+MJump(m, to, fund) ==
+  LET past == Append(m.hist, m.row) \o [i \in 1..(to - m.clock - 1) |-> SkipRow]      \* rows of times 0 .. to-1
+      lastC == CarriedVal([i \in 1..Len(past) |-> past[i].last])
+      midC == CarriedVal([i \in 1..Len(past) |-> past[i].mid])
+      mktC == CarriedVal([i \in 1..Len(past) |-> past[i].mkt])
+      prev == past[Len(past)]                                                            \* the row of time to-1
+      mktN == IF ~m.running THEN mktC
+              ELSE IF prev.last # NoPx THEN lastC ELSE IF prev.mid # NoPx THEN midC ELSE mktC IN
+  [m EXCEPT !.clock = to,
+            !.live = m.live \ Expired(m.live, to),
+            !.hist = past,
+            !.row = [mkt |-> mktN, last |-> lastC, mid |-> midC, fund |-> fund, eVol |-> 0, eTot |-> 0, nB |-> 0, nS |-> 0]]
+
 \* Market._add_order (market.py:743-790); req = requested price in units (ignored for market orders)
 AcceptedOrder(m, ag, isBuy, isMo, req, vol, ttl) ==
   MkOrder(m.nextId, ag, isBuy, isMo, RoundToTick(req, m.den, isBuy), vol, m.clock, ttl)
